@@ -327,3 +327,32 @@ func debugShadow(r *core.Run) {
 		}
 	}
 }
+
+func init() { Registry["X-cfg"] = debugCFG }
+
+// X-cfg: blocks of GCV_FN with predecessors, successors and instructions (go/ssa's own rendering).
+func debugCFG(r *core.Run) {
+	p := load(r, core.LoadOpts{})
+	fn := p.Func(os.Getenv("GCV_FN"))
+	if fn == nil {
+		fmt.Println("no such function")
+		return
+	}
+	for _, b := range fn.Blocks {
+		var ps, ss []int
+		for _, x := range b.Preds {
+			ps = append(ps, x.Index)
+		}
+		for _, x := range b.Succs {
+			ss = append(ss, x.Index)
+		}
+		fmt.Printf("b%d %s preds=%v succs=%v\n", b.Index, b.Comment, ps, ss)
+		for _, ins := range b.Instrs {
+			if v, ok := ins.(ssa.Value); ok {
+				fmt.Printf("    %s = %s\n", v.Name(), ins.String())
+			} else {
+				fmt.Printf("    %s\n", ins.String())
+			}
+		}
+	}
+}
